@@ -488,6 +488,40 @@ theorem new_quads_in_target_or_named_graph : Statement_new_quads_in_target_or_na
     | none => exact Or.inr (Or.inl rfl)
     | some t => exact Or.inr (Or.inr ⟨_, hdoc, t, rfl, rfl⟩)
 
+
+/-! ### Round h — RDF Patch (`patch.py`) -/
+
+/-- A patch consisting of `A` rows is the `BNode(label)` parser (`Policy.verbatim`) reading those statements into the
+    dataset's default graph: labels are *store-scoped by design* (`_:x` and `<_:x>` are the node `x` of the store),
+    whatever `bnode_context=` / `skolemize=` / graph parsed into the caller gives. -/
+def Statement_patch_adds_verbatim : Prop :=
+  ∀ (d : DS) (dflt : T) (doc : Doc),
+    parsePatch d dflt (doc.map (fun q => (POp.add, q))) = parseInto d .verbatim dflt doc
+
+/-- … so such a patch only adds (and everything new is the image of a row under the identity on labels) -/
+def Statement_patch_without_D_only_adds : Prop :=
+  ∀ (d : DS) (dflt : T) (doc : Doc),
+    (∀ q, q ∈ d.quads → q ∈ (parsePatch d dflt (doc.map (fun q => (POp.add, q)))).quads) ∧
+    (∃ σ : Lbl → Nat, (∀ n, σ (.named n) = n) ∧
+      ∀ q, q ∈ (parsePatch d dflt (doc.map (fun q => (POp.add, q)))).quads → q ∈ d.quads ∨ q ∈ rename σ dflt doc)
+
+theorem patch_adds_verbatim : Statement_patch_adds_verbatim := by
+  intro d dflt doc
+  simp only [parsePatch, patchRun_adds, parseInto, parseDoc]
+
+theorem patch_without_D_only_adds : Statement_patch_without_D_only_adds := by
+  intro d dflt doc
+  rw [patch_adds_verbatim]
+  obtain ⟨_, hq, _, _, _⟩ := parse_facts d .verbatim dflt doc
+  exact ⟨fun q h => (hq q).mpr (Or.inl h), sigmaOf d .verbatim dflt doc, fun n => rfl, fun q h => (hq q).mp h⟩
+
+/-- a `D` row removes a statement of the store (parsing a patch does not "only add": by design) and its label is the
+    store's node: `D _:b3 <1> <2> .` deletes the statement about node 3 -/
+theorem patch_delete_removes :
+    (parsePatch ⟨[(.bn 3, .iri 1, .iri 2, .iri 0), (.bn 4, .iri 1, .iri 2, .iri 0)], 10⟩ (.iri 0)
+      [(.del, (.lab (.named 3), .iri 1, .iri 2, none)), (.add, (.lab (.named 4), .iri 5, .lab (.named 7), some (.iri 9)))]).quads
+      = [(.bn 4, .iri 1, .iri 2, .iri 0), (.bn 4, .iri 5, .bn 7, .iri 9)] := by decide
+
 /-! ### Round g — Notation3 / Turtle / TriG: `_:x` scoping with formulae (`Parsers.n3Run`) -/
 
 /-- The N3-family parser as coded — a *stack* of `_anonymousNodes` dicts, pushed and emptied at `{`, popped at `}`,
